@@ -658,6 +658,7 @@ def r5_whence(rep, src):
         what = 'seek whence=%d' % w
         bad = None
         bad_ret = None
+        refused = None
         nok = 0
         for case, fact in (('cursor inside the member', CUR - OFF), ('cursor before the member start', OFF - CUR - 1)):
             eff = CUR if case.startswith('cursor inside') else OFF
@@ -677,10 +678,14 @@ def r5_whence(rep, src):
             outs = it.run(fnode.body, env, Facts([END - OFF, fact]))
             npaths += len(outs)
             for o in outs:
+                want = base + D
                 if o.kind == 'raise':
+                    # only a target in front of the member is refused: under the facts of a raising path the target lies before the start
+                    if not o.facts.entails(OFF - want - 1):
+                        refused = refused or ('with the %s, seek(d, %d) raises %s under %r although the target %r need not lie before the member start: '
+                                              'a position inside the member is refused depending on where the cursor happens to be' % (case, w, o.value, o.facts, want))
                     continue
                 got = o.env.get(cur_attr)
-                want = base + D
                 if not isinstance(got, Aff) or not (got == want or (o.facts.entails(got - want) and o.facts.entails(want - got))):
                     bad = bad or 'with the %s the cursor becomes %r; whence=%d must be relative to %s (%r)' % (case, got, w, base_name[w], want)
                     continue
@@ -700,6 +705,10 @@ def r5_whence(rep, src):
             rep.fail('C06.R5', f.site, what + ': result', bad_ret, where=f.where)
         elif nok:
             rep.ok('C06.R5', f.site, what + ': result', 'the new position')
+        if refused:
+            rep.fail('C06.R5', f.site, what + ': refusals', refused, where=f.where)
+        else:
+            rep.ok('C06.R5', f.site, what + ': refusals', 'raises only for a target in front of the member start')
     t = src.func(M + ':ArMember.tell')
     rep.saw_func(t)
     tnode, _ = normalize.inline_helpers(t, depth=2)
